@@ -143,8 +143,8 @@ Proof. exact round_trip_second_order. Qed.
 Print Assumptions C07_affine_generator_second_order.
 
 (* 9. inverse(link=True) / .inv on a transform that holds an nn.Parameter (repaired by 34360e2: link_
-      gives the copy a private _parameters dict without `params`): it succeeds, the original keeps its
-      Parameter, and the inverse reads that very cell -- so it follows every later in-place edit /
+      gives the copy a private _parameters dict without `params`): it succeeds, the original keeps its nn.Parameter,
+      and the inverse reads that very cell -- so it follows every later in-place edit /
       optimiser step (8b applies: its hypothesis VTen r ip covers ip = true). *)
 Theorem C07_inverse_link_parameter :
   forall (P G C : Type) (p0 : P) (fillP : P -> P -> P) (callP : nat -> option C -> P)
